@@ -177,7 +177,7 @@ struct Pool {
         case 3:
             if (e < N) {
                 size_t n = random_len(r);
-                T fill = static_cast<T>(1 + r.below(100));
+                T fill = r.chance(1, 5) ? T() : static_cast<T>(1 + r.below(100));        // a zero fill is a fill like any other
                 construct(slots[e], n, fill);
                 slots[e].shadow.assign(n, fill);
                 snprintf(desc, sizeof(desc), "s%zu=B(%zu,fill)", e, n);
@@ -236,10 +236,27 @@ struct Pool {
         case 12:
             if (i < N) {
                 size_t n = random_len(r);
-                T fill = static_cast<T>(1 + r.below(100));
-                { va::LibScope ls; (*slots[i].box)->allocate(n, fill); }
+                T fill = r.chance(1, 5) ? T() : static_cast<T>(1 + r.below(100));
+                const char *how = "fill";
+                if (!slots[i].shadow.empty() && r.chance(1, 3)) {
+                    // the fill argument is an element of the very buffer being re-allocated (b.allocate(n, b[0]), b.back(), ...)
+                    B &b = **slots[i].box;
+                    const size_t at = r.chance(1, 2) ? 0 : slots[i].shadow.size() - 1;
+                    fill = slots[i].shadow[at];
+                    const unsigned form = static_cast<unsigned>(r.below(3));
+                    {
+                        va::LibScope ls;
+                        switch (form) {
+                        case 0: b.allocate(n, b[at]); break;
+                        case 1: if (at == 0) b.allocate(n, b.front()); else b.allocate(n, b.back()); break;
+                        default: b.allocate(n, *(b.begin() + at)); break;
+                        }
+                    }
+                    how = "own element";
+                    vrt::count("op.allocate_fill_from_own_element");
+                } else { va::LibScope ls; (*slots[i].box)->allocate(n, fill); }
                 slots[i].shadow.assign(n, fill);
-                snprintf(desc, sizeof(desc), "s%zu.allocate(%zu,fill)", i, n);
+                snprintf(desc, sizeof(desc), "s%zu.allocate(%zu,%s)", i, n, how);
             }
             break;
         case 13:
